@@ -113,6 +113,21 @@ func runC07(p *Prog, r *Report) {
 	checkFanOut(p, r)
 	checkSharedWrites(p, r)
 	checkGeneratorFailure(p, r)
+	// R7: the stages between the generator and the builders (exclusion filter, live wrapper, ARP-cache
+	// resolver) forward each request - failed ones included - exactly once, so "every failed request yields
+	// exactly one error" (C13.R3 decorator clauses re-evaluated)
+	r.Min("C07.R7", 6)
+	{
+		sub13 := NewReport("C07x", "quick")
+		runC13(p, sub13)
+		for _, o := range sub13.Obs {
+			if o.Rule == "C13.R3" && strings.Contains(o.Construct, "/iteration-path#") {
+				o2 := *o
+				o2.Rule = "C07.R7"
+				r.Obs = append(r.Obs, &o2)
+			}
+		}
+	}
 }
 
 func checkBuilder(p *Prog, r *Report, fn *ssa.Function) {
